@@ -39,6 +39,7 @@ class _Interp(RsInterp):
 class Effects:
     def __init__(self) -> None:
         self.flags: set[str] = set()
+        self.flags_straight: set[str] = set()      # flags written outside every for/while/loop body (so also on a zero-trip run)
         self.stores = False
         self.sets_pc = False
         self.stack = False
@@ -47,6 +48,7 @@ class Effects:
 
     def merge(self, o: "Effects") -> None:
         self.flags |= o.flags
+        self.flags_straight |= o.flags_straight
         self.stores |= o.stores
         self.sets_pc |= o.sets_pc
         self.stack |= o.stack
@@ -57,6 +59,10 @@ class Effects:
 UNKNOWN = object()
 
 
+class _Returned(Exception):
+    """zero-trip mode: a `return` reached under decided conditions only - the rest of the function does not run"""
+
+
 class RsEffects:
     def __init__(self, rs: RustProgram):
         self.rs = rs
@@ -64,6 +70,8 @@ class RsEffects:
         self.table = rs.eval_const(isa.OPCODES_RS, "OPCODES")
         self.arms = isa.rs_exec_arms(rs)
         self.fns = {fn.name: fn for fn in rs.fns_in(isa.EVAL_RS) if fn.impl_ty == "LlamaExecutor" and fn.body is not None}
+        self.zero = False          # zero-trip mode: the byte count I reads as 0
+        self._undecided = 0        # nesting depth of branches/loops whose condition the analysis could not decide
 
     # -- constant pruning -------------------------------------------------
     def val(self, e: Any, env: dict) -> Any:
@@ -158,6 +166,11 @@ class RsEffects:
         return out
 
     # -- walker -------------------------------------------------------------
+    def _flags(self, eff: Effects, fl: set) -> None:
+        eff.flags |= fl
+        if not getattr(self, "_loop", 0):
+            eff.flags_straight |= fl
+
     def walk_block(self, node: Any, env: dict, opt: dict, eff: Effects, depth: int) -> None:
         if isinstance(node, list):
             for x in node:
@@ -178,6 +191,8 @@ class RsEffects:
                 pat = node.get("pat", {})
                 if pat.get("k") == "p_ident":
                     v = self.val(init, env)
+                    if self.zero and v is UNKNOWN and self._reads_count(init):
+                        v = 0
                     mutated = env.get("__mutated__", ())
                     if v is not UNKNOWN and pat["name"] not in mutated:
                         env[pat["name"]] = v
@@ -234,13 +249,23 @@ class RsEffects:
             opt[node["l"]["p"]] = self.optness(node["r"], env, opt)      # strong update; branches are joined by walk_branches
             return
         if k in ("for", "while", "loop"):
+            if self.zero and k == "for" and node.get("iter", {}).get("k") == "range":
+                lo, hi = self.val(node["iter"].get("lo"), env), self.val(node["iter"].get("hi"), env)
+                if lo is not UNKNOWN and hi is not UNKNOWN and isinstance(lo, int) and isinstance(hi, int) and hi <= lo:
+                    return         # the body does not run
             # a loop body may run zero or more times: walk it on a copy and join with the state before it
             before = dict(opt)
             for key, v in node.items():
                 if key in ("k", "ln", "src") or not isinstance(v, (dict, list)):
                     continue
                 o2 = dict(opt)
-                self.walk_block(v, dict(env), o2, eff, depth)
+                self._loop = getattr(self, "_loop", 0) + (1 if key == "body" else 0)
+                self._undecided += 1
+                try:
+                    self.walk_block(v, dict(env), o2, eff, depth)
+                finally:
+                    self._loop -= (1 if key == "body" else 0)
+                    self._undecided -= 1
                 for nm in set(o2) | set(before):
                     if o2.get(nm) != before.get(nm):
                         opt[nm] = "maybe"
@@ -253,7 +278,7 @@ class RsEffects:
             elif m == "set_reg" and node["args"]:
                 r = expr_text(node["args"][0])
                 if r in ("RegName::FC", "RegName::FZ", "RegName::F"):
-                    eff.flags |= {"RegName::FC": {"C"}, "RegName::FZ": {"Z"}, "RegName::F": {"C", "Z"}}[r]
+                    self._flags(eff, {"RegName::FC": {"C"}, "RegName::FZ": {"Z"}, "RegName::F": {"C", "Z"}}[r])
                 elif r.startswith("RegName::"):
                     eff.regs.add(r.split("::")[-1])
                 else:
@@ -261,7 +286,7 @@ class RsEffects:
                     if isinstance(v, tuple) and v and v[0] in ("some", "okv"):
                         v = v[1]
                     if isinstance(v, tuple) and v and v[0] == "sym" and v[1] in ("RegName::FC", "RegName::FZ", "RegName::F"):
-                        eff.flags |= {"RegName::FC": {"C"}, "RegName::FZ": {"Z"}, "RegName::F": {"C", "Z"}}[v[1]]
+                        self._flags(eff, {"RegName::FC": {"C"}, "RegName::FZ": {"Z"}, "RegName::F": {"C", "Z"}}[v[1]])
                     else:
                         eff.regs.add("<operand>")
             elif m == "get_reg" and node["args"] and expr_text(node["args"][0]).startswith("RegName::"):
@@ -279,11 +304,11 @@ class RsEffects:
             f = expr_text(node["f"])
             last = f.split("::")[-1]
             if last == "set_flags_for_result" and len(node["args"]) >= 3:
-                eff.flags.add("Z")
+                self._flags(eff, {"Z"})
                 if self.optness(node["args"][2], env, opt) != "none":
-                    eff.flags.add("C")
+                    self._flags(eff, {"C"})
             elif last == "set_flags_cmp":
-                eff.flags |= {"C", "Z"}
+                self._flags(eff, {"C", "Z"})
             elif last in ("store_traced",):
                 eff.stores = True
             elif last in ("push_stack", "pop_stack"):
@@ -296,7 +321,17 @@ class RsEffects:
                 self.walk_block(a, env, opt, eff, depth)
             return
         if k == "closure":
-            self.walk_block(node["body"], dict(env), dict(opt), eff, depth)
+            self._undecided += 1
+            try:
+                self.walk_block(node["body"], dict(env), dict(opt), eff, depth)
+            finally:
+                self._undecided -= 1
+            return
+        if k == "return":
+            if node.get("e") is not None:
+                self.walk_block(node["e"], env, opt, eff, depth)
+            if self.zero and self._undecided == 0:
+                raise _Returned()
             return
         for key, v in node.items():
             if key in ("k", "ln", "src", "ty", "name", "p", "op", "m"):
@@ -304,14 +339,31 @@ class RsEffects:
             if isinstance(v, (dict, list)):
                 self.walk_block(v, env, opt, eff, depth)
 
-    @staticmethod
-    def mutated_names(body: Any) -> frozenset:
+    def mutated_names(self, body: Any) -> frozenset:
+        """locals assigned after their definition; in zero-trip mode the bodies of `for _ in 0..<byte count>` loops do not run and
+        do not count"""
+        counts = {n["pat"]["name"] for n in walk(body) if n.get("k") == "let" and n.get("init") is not None
+                  and n.get("pat", {}).get("k") == "p_ident" and self._reads_count(n["init"])} if self.zero else set()
         out = set()
-        for n in walk(body):
+
+        def rec(n: Any) -> None:
+            if isinstance(n, list):
+                for x in n:
+                    rec(x)
+                return
+            if not isinstance(n, dict):
+                return
+            if (counts and n.get("k") == "for" and n.get("iter", {}).get("k") == "range" and isinstance(n["iter"].get("hi"), dict)
+                    and n["iter"]["hi"].get("k") == "path" and n["iter"]["hi"]["p"] in counts):
+                return
             if n.get("k") in ("assign", "opassign") and n["l"].get("k") == "path":
                 out.add(n["l"]["p"])
             if n.get("k") in ("assign", "opassign") and n["l"].get("k") == "unary" and n["l"].get("e", {}).get("k") == "path":
                 out.add(n["l"]["e"]["p"])
+            for v in n.values():
+                if isinstance(v, (dict, list)):
+                    rec(v)
+        rec(body)
         return frozenset(out)
 
     def walk_branches(self, live: list, opt: dict, eff: Effects, depth: int) -> None:
@@ -324,7 +376,11 @@ class RsEffects:
         for body, env2 in live:
             o2 = dict(opt)
             if body is not None:
-                self.walk_block(body, env2, o2, eff, depth)
+                self._undecided += 1
+                try:
+                    self.walk_block(body, env2, o2, eff, depth)
+                finally:
+                    self._undecided -= 1
             if body is None or not _diverges(body):
                 outs.append(o2)
         if not outs:
@@ -344,14 +400,36 @@ class RsEffects:
             if v is not UNKNOWN:
                 env2[p] = v
             opt2[p] = self.optness(a, env, opt)
-        self.walk_block(fn.body, env2, opt2, eff, depth + 1)
+        try:
+            self.walk_block(fn.body, env2, opt2, eff, depth + 1)
+        except _Returned:
+            pass           # the callee returned early; the caller goes on
+
+    @staticmethod
+    def _reads_count(init: Any) -> bool:
+        """`state.get_reg(RegName::I)`, possibly masked / cast"""
+        it = init
+        while isinstance(it, dict) and it.get("k") in ("binary", "paren", "cast"):
+            it = it.get("l") or it.get("e")
+        return isinstance(it, dict) and it.get("k") == "mcall" and it["m"] == "get_reg" and bool(it["args"]) and expr_text(it["args"][0]) == "RegName::I"
 
     # -- per row --------------------------------------------------------------
-    def for_opcode(self, opcode: int) -> Effects:
+    def for_opcode(self, opcode: int, zero_trip: bool = False) -> Effects:
+        """may-effects of the arm executing `opcode`; with zero_trip the byte count I reads as 0, loops over it do not run and a
+        `return` under decided conditions ends the walk (flags_straight is then what the arm writes when I = 0)"""
+        self.zero, self._undecided = zero_trip, 0
+        try:
+            return self._for_opcode(opcode)
+        except _Returned:
+            return self._eff
+        finally:
+            self.zero = False
+
+    def _for_opcode(self, opcode: int) -> Effects:
         entry = self.table[opcode]
         env = {"entry": entry}
         kind = entry["kind"][1].split("::")[-1]
-        eff = Effects()
+        eff = self._eff = Effects()
         for a in self.arms:
             if kind not in a["kinds"] and not a["wild"]:
                 continue
